@@ -165,7 +165,16 @@ func driverPath() string {
 	if p := os.Getenv("DNSDRIVER"); p != "" {
 		return p
 	}
-	return "/verif/lean/.lake/build/bin/dnsdriver"
+	return verifDir() + "/lean/.lake/build/bin/dnsdriver"
+}
+
+// verifDir: the directory of the check that runs this harness (VERIF_DIR, set by ./check), so that a copy of /verif
+// elsewhere reads its own generated files
+func verifDir() string {
+	if p := os.Getenv("VERIF_DIR"); p != "" {
+		return p
+	}
+	return "/verif"
 }
 
 // RunDriver pipes op lines through the compiled Lean model and returns its output lines.
